@@ -5,7 +5,7 @@
    harness judges on real bytes with crypto/rsa, crypto/ecdsa and crypto/sha* directly.
    "published cfg a j": j's header algorithm is a, and public_jwks cfg contains a key with j's
    kid, registered for a, without private members, under which j's signature verifies. *)
-From Verif Require Import Base Scope Types Prog Pop Token Authorize Artifacts C08Proofs.
+From Verif Require Import Base Scope Types Prog Pop Token Authorize Artifacts ArtifactsX C08Proofs C08XProofs.
 Local Open Scope N_scope.
 
 (* joseutil.Sign, for every key set, algorithm and claim set: whatever is signed with an asymmetric
@@ -113,3 +113,37 @@ Theorem id_token_and_userinfo_subject_agree : forall cfg c o now art sub r,
   ic_sub (body_claims (art_body art)) = ui_sub r /\ ui_sub r = exportable_subject cfg c sub.
 Proof. exact sub_agreement. Qed.
 Print Assumptions id_token_and_userinfo_subject_agree.
+
+(* ---- widened inputs (Model/ArtifactsX.v): path prefix, delegated signing ---- *)
+
+(* Whatever prefix the provider is mounted under (and however its keys are handled), the issuer
+   named by every artifact - ID token, JWT access token, JARM response object, signed userinfo
+   response, the iss response parameter - is the issuer of the discovery document, never the base
+   URL of the endpoints. *)
+Theorem artifacts_name_the_discovery_issuer : forall cfg kh,
+  (forall c o a now, ic_iss (id_token_claims cfg c o a now) = discovery_issuer cfg kh) /\
+  (forall n now g o t j, make_jwt_token cfg n now g o = Some t -> tk_value t = TokJwt j ->
+                         tc_iss (j_claims j) = discovery_issuer cfg kh) /\
+  (forall c p now art, jarm_response cfg c p now = Some art ->
+                       jc_iss (body_claims (art_body art)) = discovery_issuer cfg kh) /\
+  (forall c sub a, userinfo_response cfg c sub = Some (UiJwt a) ->
+                   uc_iss (body_claims (art_body a)) = discovery_issuer cfg kh) /\
+  (forall c prm p now r, ac_issuer_param cfg = true -> redirect_response cfg c prm p now = Some r ->
+                         rp_iss (params_of r) = discovery_issuer cfg kh).
+Proof. exact issuer_independent_of_mount. Qed.
+Print Assumptions artifacts_name_the_discovery_issuer.
+
+(* ... while the keys are fetched from the mounted location. *)
+Theorem jwks_uri_is_under_the_prefix : forall cfg kh,
+  discovery_jwks_uri cfg kh = (discovery_issuer cfg kh ++ (kh_prefix kh ++ "/jwks"))%string.
+Proof. exact jwks_uri_under_prefix. Qed.
+Print Assumptions jwks_uri_is_under_the_prefix.
+
+(* joseutil.Sign with a SignerFunc (provider.WithSignFunc): provided the embedder's key set lists
+   the keys its signer uses (public halves suffice), whatever is signed verifies under a key
+   published for that algorithm; without a SignerFunc this is signed_verifies_under_published_key. *)
+Theorem delegated_signature_verifies_under_published_key : forall (C : Type) cfg kh (cl : C) a typ j,
+  is_asym a = true -> signer_consistent cfg kh -> sign_x cfg kh cl a typ = Some j ->
+  published cfg a j /\ j_claims j = cl.
+Proof. exact @sign_x_published. Qed.
+Print Assumptions delegated_signature_verifies_under_published_key.
